@@ -1,0 +1,81 @@
+// MIT License
+//
+// Copyright (c) 2022-2026 GoAkt Team
+//
+// Permission is hereby granted, free of charge, to any person obtaining a copy
+// of this software and associated documentation files (the "Software"), to deal
+// in the Software without restriction, including without limitation the rights
+// to use, copy, modify, merge, publish, distribute, sublicense, and/or sell
+// copies of the Software, and to permit persons to whom the Software is
+// furnished to do so, subject to the following conditions:
+//
+// The above copyright notice and this permission notice shall be included in all
+// copies or substantial portions of the Software.
+//
+// THE SOFTWARE IS PROVIDED "AS IS", WITHOUT WARRANTY OF ANY KIND, EXPRESS OR
+// IMPLIED, INCLUDING BUT NOT LIMITED TO THE WARRANTIES OF MERCHANTABILITY,
+// FITNESS FOR A PARTICULAR PURPOSE AND NONINFRINGEMENT. IN NO EVENT SHALL THE
+// AUTHORS OR COPYRIGHT HOLDERS BE LIABLE FOR ANY CLAIM, DAMAGES OR OTHER
+// LIABILITY, WHETHER IN AN ACTION OF CONTRACT, TORT OR OTHERWISE, ARISING FROM,
+// OUT OF OR IN CONNECTION WITH THE SOFTWARE OR THE USE OR OTHER DEALINGS IN THE
+// SOFTWARE.
+
+//go:build verif
+
+package actor
+
+import "sync/atomic"
+
+// Verification hooks (build tag "verif" only). They are observation and
+// fault-injection points for the runtime monitors kept outside this
+// repository; without the tag every hook is an empty function.
+
+// VerifTurnFunc observes the start (enter=true) and the end (enter=false) of
+// the window in which a worker owns a schedulable's turn.
+type VerifTurnFunc func(s any, enter bool)
+
+// VerifInterceptFunc sees every message reaching a reliable-delivery
+// controller on that controller's own turn; returning true swallows it.
+type VerifInterceptFunc func(controller any, ctx *ReceiveContext) bool
+
+var (
+	verifTurnHook      atomic.Pointer[VerifTurnFunc]
+	verifInterceptHook atomic.Pointer[VerifInterceptFunc]
+)
+
+// SetVerifTurnHook installs (or with nil removes) the turn observer.
+func SetVerifTurnHook(f VerifTurnFunc) {
+	if f == nil {
+		verifTurnHook.Store(nil)
+		return
+	}
+	verifTurnHook.Store(&f)
+}
+
+// SetVerifInterceptHook installs (or with nil removes) the controller intercept.
+func SetVerifInterceptHook(f VerifInterceptFunc) {
+	if f == nil {
+		verifInterceptHook.Store(nil)
+		return
+	}
+	verifInterceptHook.Store(&f)
+}
+
+func verifTurnEnter(s any) {
+	if f := verifTurnHook.Load(); f != nil {
+		(*f)(s, true)
+	}
+}
+
+func verifTurnExit(s any) {
+	if f := verifTurnHook.Load(); f != nil {
+		(*f)(s, false)
+	}
+}
+
+func verifIntercept(controller any, ctx *ReceiveContext) bool {
+	if f := verifInterceptHook.Load(); f != nil {
+		return (*f)(controller, ctx)
+	}
+	return false
+}
